@@ -326,6 +326,8 @@ class Blob(Column):
     db_type = 'blob'
 
     def to_database(self, value):
+        if value is None:
+            return
 
         if not isinstance(value, (bytes, bytearray)):
             raise Exception("expecting a binary, got a %s" % type(value))
